@@ -68,6 +68,7 @@ type BridgeSt struct {
 	Flooded  map[string]bool
 	Raced    map[string]bool
 	Race     *raceSt
+	Edge     *edgeSt
 	Evm      *EvmSt // extension state of the EVM engine
 }
 
@@ -239,6 +240,7 @@ func (BridgeEngine) GenConfig(rng *rand.Rand, prop string, tier string) RunConfi
 			rc.Weights["flood"] = 3 // more queued transfers of one token than a batch can take
 		}
 		rc.Weights["race2"] = 4 // only chains with two bridged tokens run it
+		rc.Weights["edge"] = 5  // timeout boundary: an event observed in the very last external block in which the object can still run
 		if prop == "C06" && rng.IntN(2) == 0 {
 			rc.Faults = appendUniq(rc.Faults, "minority-liar")
 		}
